@@ -64,7 +64,10 @@ def _check_transient_one(case, r: R):
     tau_min, tau_max = 1 / np.abs(ev).max(), 1 / np.abs(ev.real).min()
     N = case['N']
     dt = tau_min / 20 * case['dtf']
-    t = np.arange(N) * dt
+    t_start = case.get('t_start', 0.0) * dt * N       # uniform grids need not start at t = 0: the circuit rests until the first sample
+    t = t_start + np.arange(N) * dt
+    if t_start:
+        r.cls('grid-not-starting-at-0')
     # inputs
     u = np.zeros((N, len(ref.inputs)))
     funcs = {}
@@ -83,8 +86,9 @@ def _check_transient_one(case, r: R):
             continue
         ks, vs = waveform(N, [(f, a * nominal) for f, a in wv])
         u[:, j] = sample(ks, vs, N)
-        funcs[sid] = (lambda kk, vv: (lambda tt: np.interp(np.asarray(tt, dtype=float) / dt, kk, vv)))(ks, vs)
+        funcs[sid] = (lambda kk, vv: (lambda tt: np.interp((np.asarray(tt, dtype=float) - t_start) / dt, kk, vv)))(ks, vs)
     x = dy.foh_response(A, B, u, dt)
+    condA = float(np.linalg.cond(A))
     uscale = np.abs(u).max()
     if uscale == 0:
         return r.reject('all inputs zero')
@@ -118,7 +122,7 @@ def _check_transient_one(case, r: R):
         for nd in ref.nodes:
             tt, y = sol.get_potential(nd)
             got[('phi', nd)] = np.asarray(y, dtype=float)
-            if len(tt) != N or not np.allclose(tt, t, rtol=1e-12, atol=0):
+            if len(tt) != N or not np.allclose(tt, t, rtol=1e-12, atol=1e-12 * dt):
                 r.fail('time-axis', f'{len(tt)} samples')
         for i in ref.ids:
             got[('V', i)] = np.asarray(sol.get_voltage(i)[1], dtype=float)
@@ -139,7 +143,9 @@ def _check_transient_one(case, r: R):
             r.fail('series-length', f'{key}: {y.shape}')
             continue
         err = np.abs(y - want).max()
-        if not (err <= 1e-6 * sc):
+        # the model matrices come out of two inversions of the nodal matrix: their entries carry a relative error of
+        # about eps*cond, which for stiff circuits (cond(A) up to 1e8) limits the response accuracy - not a defect
+        if not (err <= 1e-6 * max(1.0, condA / 1e5) * sc):
             k = int(np.nanargmax(np.abs(y - want))) if np.isfinite(y).all() else 0
             kind = kind_of.get(key[1], 'node')
             r.fail(f'response-{key[0]}[{kind}]', f'{key[1]!r}: sample {k}: lib {y[k]} exact {want[k]} (scale {sc:.3g})')
@@ -175,7 +181,7 @@ def _check_transient_one(case, r: R):
         else:
             lhs, sc = got[('V', s)] / c['args']['L'], vmax / c['args']['L']
         sc = max(sc, np.abs(dx[:, j]).max())
-        if np.abs(lhs - dx[:, j]).max() > 1e-5 * sc:
+        if np.abs(lhs - dx[:, j]).max() > 1e-5 * max(1.0, condA / 1e5) * sc:
             r.fail(f'derivative-relation[{c["kind"]}]', f'{s!r}: max residual {np.abs(lhs - dx[:, j]).max()} (scale {sc:.3g})')
 
 
@@ -270,7 +276,7 @@ wave = st.one_of(
 @st.composite
 def transient_case(draw):
     return {'circuit': draw(dy.any_dynamic(max_states=4)), 'N': draw(st.sampled_from([200, 400, 1000, 4000])),
-            'dtf': draw(st.sampled_from([1.0, 1.0, 0.5, 0.1])), 'waves': [[list(p) for p in draw(wave)] for _ in range(draw(st.integers(1, 3)))]}
+            'dtf': draw(st.sampled_from([1.0, 1.0, 0.5, 0.1])), 't_start': draw(st.sampled_from([0.0, 0.0, 1.0, 0.37, 5.0])), 'waves': [[list(p) for p in draw(wave)] for _ in range(draw(st.integers(1, 3)))]}
 
 
 @st.composite
